@@ -34,12 +34,17 @@ Qed.
 Print Assumptions c18_model_uses_code_constants.
 
 (* ---- 1. never a callback while blocked or while another callback is active ---- *)
-(* Whenever an activation f is about to enter / is inside the callback (anywhere in the stack of nested handlers):
-   the main flow holds no block, no callback has answered stop, every activation below f has not even incremented yet,
-   no other activation is in the callback, and blocked_ = 1 + the (remembering) activations above f. *)
+(* [reach] now contains the histories in which a running callback calls blockSignals() itself (Proofs.reach_cbb /
+   Model.cb_block), any number of times, in any callback; [depth s] = the blocks the application holds (taken by the
+   main flow or by a callback, not yet released).
+   Whenever an activation f is about to enter / is inside the callback (anywhere in the stack of nested handlers):
+   no callback has answered stop, every activation below f has not even incremented yet, no other activation is in the
+   callback, and blocked_ = 1 + the blocks held + the (remembering) activations above f; when f is ABOUT TO ENTER the
+   callback the application holds no block at all (so inside the callback every block held is one this very callback
+   took: depth only changes by the main flow, which does not run, or by cb_block of the running callback). *)
 Theorem c18_never_while_blocked : forall o a s pre f post,
   bal 0 o = true -> reach o a s -> stack s = pre ++ f :: post -> in_cb f = true ->
-  depth s = 0 /\ stops s = 0 /\ blocked s = 1 + nactive pre /\
+  (h_pc f = HCbEnter -> depth s = 0) /\ stops s = 0 /\ blocked s = 1 + depth s + nactive pre /\
   Forall (fun g => in_cb g = false) (pre ++ post) /\ Forall (fun g => h_pc g = HInc) post.
 Proof. exact never_while_blocked. Qed.
 Print Assumptions c18_never_while_blocked.
@@ -49,6 +54,65 @@ Theorem c18_callback_entry_unblocked : forall o a s f rest,
   depth s = 0 /\ stops s = 0 /\ blocked s = 1 /\ h_r f = 0 /\ Forall (fun g => h_pc g = HInc) rest.
 Proof. exact callback_entry_unblocked. Qed.
 Print Assumptions c18_callback_entry_unblocked.
+
+(* while the application holds a block - its own or one that a callback took and left to the main flow - no activation
+   is about to enter the callback *)
+Theorem c18_no_entry_while_holding : forall o a s,
+  bal 0 o = true -> reach o a s -> 1 <= depth s -> Forall (fun f => h_pc f <> HCbEnter) (stack s).
+Proof. exact no_entry_while_holding. Qed.
+Print Assumptions c18_no_entry_while_holding.
+
+(* ---- 1b. callbacks that take blocks themselves ---- *)
+(* An arrival is about to enter the callback (so: entry value of blocked_ = h_r f = 0, no block held).  The callback is
+   entered, calls blockSignals() k times (k arbitrary), answers continue and returns; the activation executes its own
+   decrement.  Then: blocked_ = entry value + k, the application holds exactly k blocks, the activation is gone, the
+   slot / main flow / stop count are untouched, the state is reachable (so every theorem of this file applies from
+   there) - and for k >= 1 no activation is about to enter the callback; by c18_no_entry_while_holding this stays so in
+   EVERY state reachable later in which the blocks have not all been released (depth >= 1). *)
+Theorem c18_callback_taken_blocks : forall o a s f rest k,
+  bal 0 o = true -> reach o a s -> stack s = f :: rest -> h_pc f = HCbEnter -> answer s = true ->
+  let s1 := Nat.iter k cb_block (step true 0 s) in
+  let s3 := step true 0 (step true 0 s1) in
+  reach o a s3 /\ h_r f = 0 /\ depth s = 0 /\
+  blocked s1 = 1 + Z.of_nat k /\
+  blocked s3 = h_r f + Z.of_nat k /\ depth s3 = Z.of_nat k /\ cbt s3 = cbt s + Z.of_nat k /\ stack s3 = rest /\
+  stops s3 = stops s /\ pending s3 = pending s /\ ops s3 = ops s /\ mpc_ s3 = mpc_ s /\
+  (1 <= Z.of_nat k -> Forall (fun g => h_pc g <> HCbEnter) (stack s3)).
+Proof. exact callback_taken_blocks. Qed.
+Print Assumptions c18_callback_taken_blocks.
+
+(* non-vacuity: signal 1 arrives and finds blocked_ = 0; its callback takes 2 blocks and continues: afterwards blocked_ = 2
+   = blocks held.  The main flow now decides to release them (reach_ops: [Unblock true; Unblock true] is well nested from
+   depth 2).  Signal 2 arrives: remembered, not delivered; the first Unblock(true) brings blocked_ to 1: still no
+   delivery; the second (outermost) one hands signal 2 to the callback. *)
+Example ex_callback_taken_blocks :
+  let s := exec [1; 0] (init [] []) in
+  let s3 := step true 0 (step true 0 (Nat.iter 2 cb_block (step true 0 s))) in
+  let t0 := set_ops s3 [Unblock true; Unblock true] in
+  let t := exec [2; 0; 0; 0; 0; 0] t0 in
+  let u := exec [0; 0; 0; 0; 0; 0] t in
+  (reach [] [] s /\ bal 0 [] = true /\ stack s = [mkH 1 0 false HCbEnter 0] /\ answer s = true) /\
+  (blocked s3 = 2 /\ depth s3 = 2 /\ cbt s3 = 2 /\ stack s3 = []) /\
+  reach [] [] u /\
+  (pending t = 2 /\ blocked t = 1 /\ depth t = 1 /\ fates t = [(O, FDelivered 1)] /\ mpc_ t = MOp) /\
+  (blocked u = 0 /\ depth u = 0 /\ fates u = [(1%nat, FDelivered 2); (O, FDelivered 1)]).
+Proof.
+  cbv zeta. split; [split; [apply reach_exec; constructor|vm_compute; repeat split; reflexivity]|].
+  split; [vm_compute; repeat split; reflexivity|].
+  split.
+  - apply reach_exec. apply reach_exec. apply reach_ops; [|vm_compute; reflexivity..].
+    apply reach_step. apply reach_step. apply (reach_iter_cbb [] [] 2). apply reach_step. apply reach_exec. constructor.
+  - vm_compute; repeat split; reflexivity.
+Qed.
+
+(* the same at the OS level, as the harness prints it (case -1 0 0 1 4 1: first main(), empty flow, one callback with answer code 4,
+   decision: signal 1 arrives): inside the callback "3 2 0" (blocked_ = 2: the callback has called blockSignals()), after the
+   activation's own decrement "6 2 0" -> the run ends with blocked_ = 1 = the block the callback took *)
+Example c18_os_cb_block_smoke :
+  Disp.run_case [-1; 0; 0; 1; 4; 1] =
+    [0; 0; 0; 40; 1; 1; 1; 0; 1; 30; 1;   1; 0; 0; 40; 2; 1; 1; 0; 1;   2; 1; 0; 40; 2; 1; 1; 0; 1; 20; 1;
+     3; 2; 0; 40; 2; 1; 1; 0; 1; 21; 1;   6; 2; 0; 40; 2; 1; 1; 0; 1;   0; 1; 0; 40; 1; 1; 1; 0; 1;   41; 1; 1; 1; 0; 1;   42; 0].
+Proof. vm_compute. reflexivity. Qed.
 
 (* ---- 2. an arrival that finds blocked_ = 0 is delivered within its own activation ---- *)
 Theorem c18_immediate : forall at_ s f rest,
@@ -111,7 +175,7 @@ Theorem c18_exactly_once : forall o a s,
   (forall i, cnt_stack i (stack s) + cnt_slot i s + cnt_fates i (fates s) = (if (i <? length (arrs s))%nat then 1 else 0)) /\
   NoDup (map fst (fates s)) /\
   (forall i, ~ In (i, FLost) (fates s)) /\
-  (forall i, In (i, FStopLost) (fates s) -> 0 < stops s) /\
+  (forall i, In (i, FStopLost) (fates s) -> 0 < stops s + cbt s) /\   (* cbt = blocks callbacks took so far (never decreases) *)
   (forall i x, In (i, FDelivered x) (fates s) -> nth_error (arrs s) i = Some x).
 Proof.
   intros o a s Hb Hr. split; [|split; [|split; [|split]]].
@@ -127,7 +191,7 @@ Print Assumptions c18_exactly_once.
    delivery is requested, dropped otherwise; the take follows a decrement 1 -> 0 of a main flow that holds no block *)
 Theorem c18_release_hands_over : forall o a s dl,
   bal 0 o = true -> reach o a s -> stack s = [] -> mpc_ s = MTake dl ->
-  depth s = 0 /\
+  0 <= depth s <= cbt s /\     (* no block held - except blocks a callback took between the decrement and the take *)
   (pending s <> 0 ->
      let s' := step true 0 s in
      pending s' = 0 /\ mpc_ s' = MOp /\
@@ -147,27 +211,31 @@ Proof. exact take_after_release. Qed.
 Print Assumptions c18_take_after_release.
 
 Theorem c18_deferred_runs : forall o a s f rest,
-  bal 0 o = true -> reach o a s -> stack s = f :: rest -> h_def f = true -> h_pc f = HInc -> stops s = 0 ->
-  rest = [] /\ blocked s = 0.
+  bal 0 o = true -> reach o a s -> stack s = f :: rest -> h_def f = true -> h_pc f = HInc ->
+  rest = [] /\ blocked s = depth s + stops s /\ 0 <= depth s <= cbt s /\ (stops s = 0 -> cbt s = 0 -> blocked s = 0).
 Proof. exact deferred_runs. Qed.
 Print Assumptions c18_deferred_runs.
 
 (* ---- 5. the nesting count is restored ---- *)
+(* [extra (depth s) f] = the blocks the callback of f took: 0 unless f's increment returned 0 (only then the callback ran),
+   and then every block the application holds (the entry depth was 0: c18_callback_entry_unblocked, c18_callback_taken_blocks) *)
 Theorem c18_nesting_restored : forall o a s f rest,
   bal 0 o = true -> reach o a s -> stack s = f :: rest -> h_pc f = HDec ->
-  blocked (step true 0 s) = h_r f /\ stack (step true 0 s) = rest.
+  blocked (step true 0 s) = h_r f + extra (depth s) f /\ stack (step true 0 s) = rest /\
+  (h_r f <> 0 -> blocked (step true 0 s) = h_r f) /\ (depth s = 0 -> blocked (step true 0 s) = h_r f).
 Proof. exact nesting_restored. Qed.
 Print Assumptions c18_nesting_restored.
 
 Theorem c18_nesting_general : forall o a s pre f post,
   bal 0 o = true -> reach o a s -> stack s = pre ++ f :: post -> h_pc f <> HInc ->
-  blocked s = h_r f + 1 + nactive pre.
+  blocked s = h_r f + 1 + extra (depth s) f + nactive pre.
 Proof. exact nesting_general. Qed.
 Print Assumptions c18_nesting_general.
 
 Theorem c18_callback_continue_restores : forall o a s f rest,
   bal 0 o = true -> reach o a s -> stack s = f :: rest -> h_pc f = HCbExit -> answer s = true ->
-  let s2 := step true 0 (step true 0 s) in blocked s2 = 0 /\ stack s2 = rest /\ stops s2 = stops s.
+  let s2 := step true 0 (step true 0 s) in
+  blocked s2 = depth s /\ depth s2 = depth s /\ stack s2 = rest /\ stops s2 = stops s /\ (depth s = 0 -> blocked s2 = 0).
 Proof. exact callback_continue_restores. Qed.
 Print Assumptions c18_callback_continue_restores.
 
@@ -337,7 +405,7 @@ Theorem c18_os_exactly_once : forall pre s, oreach pre s ->
              = (if (i <? length (arrs (core s)))%nat then 1 else 0)) /\
   NoDup (map fst (fates (core s))) /\
   (forall i, ~ In (i, FLost) (fates (core s))) /\
-  (forall i, In (i, FStopLost) (fates (core s)) -> 0 < stops (core s)) /\
+  (forall i, In (i, FStopLost) (fates (core s)) -> 0 < stops (core s) + cbt (core s)) /\
   (forall i x, In (i, FDelivered x) (fates (core s)) -> nth_error (arrs (core s)) i = Some x).
 Proof. exact os_exactly_once. Qed.
 Print Assumptions c18_os_exactly_once.
@@ -349,7 +417,7 @@ Theorem c18_os_immediate : forall s d, d <> 0 -> is_sig d = true -> dsp s d = DH
   fates (core s4) = (length (arrs (core s)), FDelivered d) :: fates (core s) /\
   arrs (core s4) = arrs (core s) ++ [d] /\
   stack (core s4) = mkH d (length (arrs (core s))) false HCbExit 0 :: stack (core s) /\
-  blocked (core s4) = 1 /\
+  blocked (core s4) = (if hd false (tl (rearm (reg s))) then 2 else 1) /\   (* 2: the entered callback has called blockSignals() itself *)
   hs s4 = mkS d PRun :: hs s /\
   dsp s4 d = (if (d =? alarm_sig) && hd false (rearm (reg s)) then DHandler else DIgnore) /\
   drp s4 = drp s /\ acc s4 = acc s ++ [d].
@@ -576,7 +644,7 @@ Print Assumptions c18_os_setalarm_step.
 Theorem c18_os_rearm_step : forall s,
   match hs s with [] => True | e :: _ => s_ph e = PRun end ->
   cb_enter (core s) = true -> hd false (rearm (reg s)) = true ->
-  dsp (ostep 0 s) alarm_sig = DHandler /\ alarm_set (reg (ostep 0 s)) = true /\ core (ostep 0 s) = step true 0 (core s).
+  dsp (ostep 0 s) alarm_sig = DHandler /\ alarm_set (reg (ostep 0 s)) = true /\ core (ostep 0 s) = cstep (core s) (reg s).   (* cstep = the atomic step + the entered callback's own blockSignals(), if it takes one *)
 Proof. exact os_rearm_step. Qed.
 Print Assumptions c18_os_rearm_step.
 
@@ -641,11 +709,13 @@ Proof. intros m r H. unfold Disp.run_case. rewrite H. reflexivity. Qed.
    The increment is the LAST block / unblock operation of the main flow of a run (FCore Block with nothing of the core flow behind it);
    the error report of shutdown(true) - an onUnhandledException() override that returns (the default one exits) - is the main-flow step
    FReport behind it: application code in front of which, and during which, signals arrive (scheduling-point code 16).
-   [shut s] = the main flow has executed its last operation and holds at least one block (1 <= depth): nothing can release it.
+   [shut s] = the main flow has executed its last operation, the application holds at least one block (1 <= depth) and no activation
+   is inside a callback (shutdown starts in the main flow, with no activation at all: c18_shutdown_starts): nothing can release the block,
+   and no running callback exists that could hold blocks of its own (Model.cb_block).
    [delivered c] = the arrivals handed to the callback so far (the FDelivered entries of the fate list). *)
 
 (* for EVERY schedule ds of arrivals and steps from a state in which shutdown has started: the application still holds a block
-   (c18_never_while_blocked: depth > 0), blocked_ >= 1, no activation is about to enter / inside the callback, no callback entry or exit
+   (depth > 0; [shut] is an invariant of every OS-level step), blocked_ >= 1, no activation is about to enter / inside the callback, no callback entry or exit
    is the next step, NOTHING is handed to the callback (the list of deliveries does not grow), and the increment of every arrival sends
    it to the remember / discard path (HTest) *)
 Theorem c18_shutdown_blocks_for_good : forall pre s ds,
@@ -715,7 +785,7 @@ Proof.
   cbv zeta. split; [constructor; reflexivity|].
   split; [reflexivity|]. split; [reflexivity|]. split; [reflexivity|]. split; [reflexivity|].
   split; [apply oreach_oexec; constructor; reflexivity|].
-  split; [vm_compute; repeat split; try reflexivity; discriminate|].
+  split; [vm_compute; repeat split; first [reflexivity|discriminate|constructor]|].
   vm_compute. repeat split; reflexivity.
 Qed.
 
